@@ -256,7 +256,15 @@ pub fn run(rep: &Report) -> serde_json::Value {
                 let mut e = vec![int(tag), pid.clone(), pid.clone()];
                 if with_ref { e.push(rf.clone()); }
                 e.push(OwnedTerm::Atom(erltf::types::Atom::new(name.as_str())));
-                let Ok(m) = ControlMessage::from_term(&OwnedTerm::Tuple(e)) else { rep.violation("integer-tagged tuple rejected", json!({"tag": tag, "reason": name})); continue; };
+                let Ok(m) = ControlMessage::from_term(&OwnedTerm::Tuple(e.clone())) else { rep.violation("integer-tagged tuple rejected", json!({"tag": tag, "reason": name})); continue; };
+                // the same message under a distribution header: short node names next to the (possibly long) reason, with an
+                // even and an odd number of distinct atoms
+                header_trip(rep, &m, &denote(&OwnedTerm::Tuple(e.clone())));
+                {
+                    let mut e3 = e.clone();
+                    e3[2] = OwnedTerm::Pid(erltf::types::ExternalPid::new(erltf::types::Atom::new("m@h"), 1, 2, 3));
+                    if let Ok(m3) = ControlMessage::from_term(&OwnedTerm::Tuple(e3.clone())) { header_trip(rep, &m3, &denote(&OwnedTerm::Tuple(e3))); }
+                }
                 let reason_of = |v: &RefVal| -> Option<String> { if let RefVal::Tuple(es) = v { if let Some(RefVal::Atom(a)) = es.last() { return Some(a.clone()); } } None };
                 let on_wire = erltf::encode(&m.to_term()).ok().and_then(|b| vcore::refcodec::ref_decode(&b).ok()).and_then(|v| reason_of(&v));
                 let parsed_back = erltf::encode(&m.to_term()).ok().and_then(|b| erltf::decode(&b).ok()).and_then(|t| ControlMessage::from_term(&t).ok()).and_then(|m2| reason_of(&denote(&m2.into_term())));
